@@ -252,9 +252,31 @@ pub const VECTORS: &[Vector] = &[
     v("return string.byte('A'), string.char(72, 105), ('x'):byte()", "65.0, \"Hi\", 120.0"),
 ];
 
+/// programs both dialects reject (Lua 5.1 manual 2.5.9: `...` only inside a vararg function)
+pub const REJECTED: &[&str] = &[
+    "local function f() return ... end",
+    "local function f(...) return function() return ... end end",
+    "local f = function(a) local b = ... end",
+    "function t:m() print(...) end",
+];
+
+pub const ACCEPTED: &[&str] = &["return ...", "local a = ... return function(...) return ... end", "local function f(a, ...) return select('#', ...) end"];
+
 /// returns the list of failures
 pub fn run_vectors() -> Vec<String> {
     let mut failures = Vec::new();
+    for src in REJECTED {
+        for mode in [Mode::Luau, Mode::Lua51] {
+            if super::parser::parse(src.as_bytes(), mode).is_ok() {
+                failures.push(format!("`{}` must be rejected", src));
+            }
+        }
+    }
+    for src in ACCEPTED {
+        if super::parser::parse(src.as_bytes(), Mode::Lua51).is_err() {
+            failures.push(format!("`{}` must be accepted", src));
+        }
+    }
     for vec in VECTORS {
         let obs = observe(vec.src, Mode::Luau, DEFAULT_FUEL, &|_| {});
         let ok = match &obs.outcome {
